@@ -936,9 +936,11 @@ def main(chk: core.Check) -> int:
     from verif.props import c16_wilcoxon
     pruners_int.regenerate(chk)
     c16_wilcoxon.prepare(chk)  # Generated/WilcoxonSkel.lean from optuna/pruners/_wilcoxon.py
+    from verif.props import c16_skel
+    c16_skel.prepare(chk)      # Generated/PrunersSkel.lean: control skeletons of every other pruner
     chk.rule = RULE + " || " + c16_wilcoxon.RULE
     if not getattr(chk, "no_prove", False):
-        chk.prove(["OptunaVerif.Props.C16", "OptunaVerif.Props.C16Gen"] + c16_wilcoxon.PROPS_MODULES)
+        chk.prove(["OptunaVerif.Props.C16", "OptunaVerif.Props.C16Gen"] + c16_wilcoxon.PROPS_MODULES + c16_skel.PROPS_MODULES)
     try:
         core.ensure_driver()
         drv = core.Driver("pruners")
